@@ -655,3 +655,25 @@ def analyse_lex_string(model: Model, quote: str, context: str = "bracket") -> Di
         elif err:
             pass
     return {"escapes": escapes, "raw": raw, "problems": probs, "info": info, "paths": len(runs), "state": name}
+
+
+OVER_SUFFIXES = ("unbounded", "non-hex", ":accepted", ":follow", ":low-range", ":extra-digits")
+UNDER_SUFFIXES = (":rejected", "pair-rejected", ":raises", "never-accepts")
+VALUE_ONLY_SUFFIXES = ("value", "value-form", ":codepoint", "pair-arithmetic", ":hex-result", "loop:escape-output", "loop:raw-output")
+
+
+def classify_problems(problems: List[Any]) -> Tuple[List[Any], List[Any], List[Any], List[Any]]:
+    """(accepts too much, refuses too much, only the decoded value is wrong, anything else) — the last kind means
+    the accepted language cannot be read off the decoder model."""
+    over, under, value_only, other = [], [], [], []
+    for p in problems:
+        part, k, msg = p[0], p[1], p[2]
+        if k == "raises" or k.endswith(UNDER_SUFFIXES) or (k == "string-from-codepoint" and str(msg).startswith("raises")):
+            under.append(p)
+        elif k.endswith(OVER_SUFFIXES):
+            over.append(p)
+        elif k.endswith(VALUE_ONLY_SUFFIXES) or (k == "string-from-codepoint"):
+            value_only.append(p)
+        else:
+            other.append(p)
+    return over, under, value_only, other
